@@ -22,11 +22,11 @@ theorem lease_constants :
 theorem unknown_renew_noop_error (h : Bytes → Bytes) (secret : Bytes) (t : Nat) :
     (∀ f s, Mutable.schemaOf f = some s → Mutable.findRenew h s secret (enumerateLeases f) = none →
       Mutable.renewLease h f secret t = (f, some .indexError)) ∧
-    (∀ f s, Imm.schemaOf f = some s → Imm.findRenew h s secret (Imm.getLeases f) 0 = none →
-      Imm.renewLease h f secret t = (f, some .indexError)) := by
+    (∀ f s, ImmL.schemaOf f = some s → ImmL.findRenew h s secret (ImmL.getLeases f) 0 = none →
+      ImmL.renewLease h f secret t = (f, some .indexError)) := by
   constructor
   · intro f s hs hf; simp only [Mutable.renewLease, hs, hf]
-  · intro f s hs hf; simp only [Imm.renewLease, hs, hf]
+  · intro f s hs hf; simp only [ImmL.renewLease, hs, hf]
 
 /-- server level (`StorageServer.renew_lease`): if no share file of the bucket knows the secret (each
     container's `renew_lease` raises, leaving its file unchanged by the theorem above), the call raises
@@ -141,10 +141,10 @@ theorem no_backdating_partial (h : Bytes → Bytes) (f : File) (hwf : WF f) (sec
       · exact ⟨x, hx, Nat.le_refl _, rfl, rfl, rfl, rfl⟩
 
 /- NOT PROVED IN LEAN (immutable side of `renew_or_add` / `no_backdating`): the same two statements for
-   `Imm.addOrRenew` / `Imm.renewLease` over `Imm.getLeases` under `Imm.WF`:
-     Imm.findRenew h s li.renew (Imm.getLeases f) 0 = some (i, l) → li.expire < 2^32 →
-       (Imm.addOrRenew h f avail li).2 = none ∧
-       Imm.getLeases (Imm.addOrRenew h f avail li).1 = (Imm.getLeases f).set i { l with expire := max l.expire li.expire }
+   `ImmL.addOrRenew` / `ImmL.renewLease` over `ImmL.getLeases` under `ImmL.WF`:
+     ImmL.findRenew h s li.renew (ImmL.getLeases f) 0 = some (i, l) → li.expire < 2^32 →
+       (ImmL.addOrRenew h f avail li).2 = none ∧
+       ImmL.getLeases (ImmL.addOrRenew h f avail li).1 = (ImmL.getLeases f).set i { l with expire := max l.expire li.expire }
    What is missing is the read-after-write lemma for the 72-byte record array at `leaseOffset`
    (the analogue of `enumerateLeases_write`).  The immutable model is tied to storage/immutable.py by the
    C25 correspondence (lease lists and raw bytes of v1 and v2 immutable share files after every
@@ -180,14 +180,14 @@ theorem v2_no_cleartext (h h' : Bytes → Bytes) (rs rs' cs cs' : Bytes) (hr : h
     (∀ f, Mutable.schemaOf f = some .v2 →
       Mutable.addOrRenew h f avail { owner := owner, expire := expire, renew := rs, cancel := cs, nodeid := nodeid } =
       Mutable.addOrRenew h' f avail { owner := owner, expire := expire, renew := rs', cancel := cs', nodeid := nodeid }) ∧
-    (∀ f, Imm.schemaOf f = some .v2 →
-      Imm.addOrRenew h f avail { owner := owner, expire := expire, renew := rs, cancel := cs, nodeid := nodeid } =
-      Imm.addOrRenew h' f avail { owner := owner, expire := expire, renew := rs', cancel := cs', nodeid := nodeid }) := by
+    (∀ f, ImmL.schemaOf f = some .v2 →
+      ImmL.addOrRenew h f avail { owner := owner, expire := expire, renew := rs, cancel := cs, nodeid := nodeid } =
+      ImmL.addOrRenew h' f avail { owner := owner, expire := expire, renew := rs', cancel := cs', nodeid := nodeid }) := by
   constructor
   · intro f hs
     simp only [Mutable.addOrRenew, Mutable.renewLease, hs, findRenew_v2_congr h h' rs rs' hr, toStored, hr, hc]
   · intro f hs
-    simp only [Imm.addOrRenew, Imm.renewLease, Imm.addLease, hs, imm_findRenew_v2_congr h h' rs rs' hr, toStored, hr, hc]
+    simp only [ImmL.addOrRenew, ImmL.renewLease, ImmL.addLease, hs, imm_findRenew_v2_congr h h' rs rs' hr, toStored, hr, hc]
 
 /-- the hypothesis of `v2_no_cleartext` is satisfiable with different secrets (a constant "hash") and
     the conclusion is not trivial: a v1 container does depend on the secret itself -/
